@@ -253,7 +253,8 @@ def _pred_audit(case, out):
 # ----------------------------------------------------------------------------------------------- generators
 def _gen_map(rng, grid):
     nchr = rng.choice([1, 2, 2, 3, 3, 4])
-    labels = rng.sample(range(-2, 12), nchr)
+    # chromosome labels: small ones, and (one case in three) labels that do not fit int8 / int16 / int32
+    labels = rng.sample(list(range(-2, 12)) + ([200, 40000, 2 ** 33 + 7] if rng.random() < 0.34 else []), nchr)
     congruent = rng.random() < 0.7
     # scales (grid maps stay exact: dyadic positions, power-of-two knot gaps): genetic positions from 2^-40 to 2^+10 times the
     # unit grid (large ones only on congruent maps: a large negative gap overflows exp(); not beyond 2^10 because the verified
@@ -416,7 +417,7 @@ def _wide_case(rng, cls=None):
     """more markers on a chromosome and more chromosomes than a narrow integer type can count (> 127, > 255 markers; labels beyond
     int8 / int16), so that group metadata, run boundaries, indices and labels kept in a narrow type would wrap"""
     cls = cls or rng.choice(["std", "ext"])
-    labels = rng.sample([-3, 5, 120, 130, 250, 300, 40000, 70000], rng.choice([1, 2, 2]))
+    labels = [rng.choice([40000, 70000, 2 ** 33 + 1])] + rng.sample([-3, 5, 130, 250, 300], rng.choice([0, 1, 1]))
     sizes = [rng.choice([260, 300])] if len(labels) == 1 else [130, rng.choice([129, 140])]     # elaboration time of the shard grows faster than n
     rows = []
     for c, k in zip(labels, sizes):
